@@ -140,6 +140,33 @@ Theorem C20_payload_pure_after_invalidation : forall st h1 h2,
 Proof. exact pure_after_invalidation. Qed.
 Print Assumptions C20_payload_pure_after_invalidation.
 
+(* the template loader - which also loads the root template of a processed lookup - reports a
+   failed fetch as an error and never hands invented content to pongo2 (translator tplcache over
+   configuration/template/loader.go): the reason why, in [step], a lookup of a missing entry fails
+   and leaves nothing behind in the template cache *)
+Theorem C20_failed_fetch_is_error_in_source : tplcache_failed_fetch_is_error = true.
+Proof. exact failed_fetch_is_error_in_source. Qed.
+Print Assumptions C20_failed_fetch_is_error_in_source.
+
+(* a processed lookup of a path that has no entry fails, after every history - as the
+   unprocessed lookup does *)
+Theorem C20_processed_lookup_needs_entry : forall be h p vars,
+  assoc p (store_after be h) = None ->
+  snd (step (fst (run (fresh be) h)) (OReq p vars)) = None.
+Proof. exact needs_entry. Qed.
+Print Assumptions C20_processed_lookup_needs_entry.
+
+(* success/failure and payload of a processed lookup are a function of the current content of
+   the store (and the request) only: whatever was asked for - also while it was missing -, created
+   or invalidated before, provided no entry whose template is compiled was rewritten without an
+   invalidation (that one is served from the old template by design) *)
+Theorem C20_processed_lookup_history_free : forall be h p vars,
+  safe_hist (fresh be) h = true ->
+  snd (step (fst (run (fresh be) h)) (OReq p vars)) =
+  match assoc p (store_after be h) with Some t => render vars t | None => None end.
+Proof. exact history_free. Qed.
+Print Assumptions C20_processed_lookup_history_free.
+
 (* Query parameters (k=v(&k=v)* with the "process" flag): accepted strings are exactly the
    printed forms of well-formed item lists, and parsing returns exactly what they spell. *)
 Theorem C20_params_print_parse : forall kvs,
@@ -173,7 +200,12 @@ Example C20_nonvacuous :
    let its := [([100], [105]); ([105;95;119], [73]); ([119], [70])] in
    let tpc := [([100], [116]); ([119], [70])] in
    snd (run (fresh be) [OReq p its; OReq p tpc]) = [Some [119;102;61;73]; Some [119;102;61;70]] /\
-   no_put [OReq p its; OReq p tpc] = true).
+   no_put [OReq p its; OReq p tpc] = true /\
+   (* asked while missing, created, asked again *)
+   let late := [100;47;108] in
+   let h := [OReq late its; OPut late [TVar [100]]; OReq late its] in
+   safe_hist (fresh be) h = true /\
+   snd (run (fresh be) h) = [None; None; Some [105]]).
 Proof. vm_compute. repeat split; reflexivity. Qed.
 
 (* had the function map been registered with the cached template set (switch on), the payload
